@@ -1,55 +1,62 @@
 #!/usr/bin/env python3
-"""Writes MANIFEST.json from the table below (kept here so that the manifest is always valid JSON)."""
-import json, os
+"""Writes MANIFEST.json from checks/Cnn.json fragments (one per claimed property) and
+not_applicable.json (reasons for unclaimed ones). Hook commits are read from /repo's git log."""
+import json, os, subprocess
 ROOT = os.path.dirname(os.path.dirname(os.path.abspath(__file__)))
 ALL = [f"C{n:02d}" for n in range(1, 21)]
-
-CHECKS = {
- "C18": dict(
-    engine="E3-pure",
-    technique="Coq proof (permutation invariance, mirror agreement, tie resolution, unauthenticated-powerless, one-elected) over a Gallina model of elect_sessions/NodeServerState + differential correspondence with the real functions",
-    text="Machine-checked theorems over all candidate multisets, name pairs, nonces and table states (no size bound) about a hand-written model of elect_sessions and the node-server candidate table; the model is tied to the code on every run by running both on exhaustive small and seeded random inputs and histories, and the property's executable oracle is evaluated (inside Coq) on the implementation's own answers.",
-    design_ref="4/C18",
-    note="Trusted: Coq kernel; fidelity of coq/Cluster/Elect.v to ractor_cluster/src/node.rs is checked by differential runs only; node names modelled by their rank under str::cmp; two-node handshake interleaving (E4) not yet covered by this check."),
-}
-
-NOT_YET = "framework for this property not built yet in this round (planned: DESIGN.md section 4)"
+NOT_YET = "check not built yet (planned: DESIGN.md section 4); no claim is made for this property in this commit"
 
 def main():
-    checks = []
-    for p in ALL:
-        if p not in CHECKS:
+    frags = {}
+    for f in sorted(os.listdir(os.path.join(ROOT, "checks"))):
+        if f.endswith(".json"):
+            c = json.load(open(os.path.join(ROOT, "checks", f)))
+            frags[c["property_id"]] = c
+    reasons = {}
+    p = os.path.join(ROOT, "not_applicable.json")
+    if os.path.exists(p):
+        reasons = json.load(open(p))
+    checks, engines = [], {}
+    for pid in ALL:
+        if pid not in frags:
             continue
-        c = CHECKS[p]
-        checks.append({
-            "property_id": p,
-            "quick_cmd": f"python3 bin/check.py {p} --tier quick",
-            "thorough_cmd": f"python3 bin/check.py {p} --tier thorough",
-            "evidence_file": f"evidence/{p}.json",
-            "replay_cmd_template": f"python3 bin/check.py {p} --replay {{path}}",
+        c = frags[pid]
+        chk = {
+            "property_id": pid,
+            "quick_cmd": c.get("quick_cmd", f"python3 bin/check.py {pid} --tier quick"),
+            "thorough_cmd": c.get("thorough_cmd", f"python3 bin/check.py {pid} --tier thorough"),
+            "evidence_file": f"evidence/{pid}.json",
+            "replay_cmd_template": f"python3 bin/check.py {pid} --replay {{path}}",
             "engine": c["engine"],
             "level_claimed": {"category": c.get("category", "proof"), "text": c["text"], "design_ref": c["design_ref"]},
             "level_note": c["note"],
             "technique": c["technique"],
-        })
+        }
+        checks.append(chk)
+        e = engines.setdefault(c["engine"], {"name": c["engine"], "path": "harness/src/bin", "serves_properties": [],
+                                             "kind_free_text": c.get("engine_desc", "")})
+        e["serves_properties"].append(pid)
+    try:
+        commits = subprocess.run(["git", "-C", "/repo", "log", "--grep", "^verif hook", "--format=%h"],
+                                 capture_output=True, text=True).stdout.split()
+    except Exception:
+        commits = []
     man = {
         "version": 1,
         "setup_cmd": "bash bin/setup.sh",
         "hooks": {
             "guard": "--cfg slawlor_ractor_verif",
-            "enable": "RUSTFLAGS=\"--cfg slawlor_ractor_verif\" (set in harness/.cargo/config.toml); the harness crate depends on /repo/ractor and /repo/ractor_cluster by path",
+            "enable": "RUSTFLAGS=\"--cfg slawlor_ractor_verif\" (set in harness/.cargo/config.toml); the harness crate depends on /repo/ractor and /repo/ractor_cluster by path, so every check rebuilds them from the working tree",
             "baseline_off_cmd": "cd /repo && cargo nextest run --workspace --no-fail-fast --tool-config-file pb:/w/lib/nextest.toml --profile pb --test-threads 8 --offline",
-            "source_commits": json.load(open(os.path.join(ROOT, "hooks.json")))["source_commits"],
+            "source_commits": list(reversed(commits)),
             "add_only": True,
         },
-        "engines": [
-            {"name": "E3-pure", "path": "harness/src/bin", "serves_properties": ["C18"],
-             "kind_free_text": "differential runs of pure functions / state tables: real Rust code vs. the Coq model evaluated with vm_compute"},
-        ],
+        "engines": list(engines.values()),
         "checks": checks,
-        "notes": "Technique family: machine-checked proof in Coq 8.16.1 over hand-written executable models + per-run correspondence check (DESIGN.md).",
-        "not_applicable": [{"property_id": p, "reason": NOT_YET} for p in ALL if p not in CHECKS],
+        "notes": "Technique family: machine-checked proof in Coq 8.16.1 over hand-written executable Gallina models + per-run correspondence check against the real Rust code (DESIGN.md).",
+        "not_applicable": [{"property_id": p, "reason": reasons.get(p, NOT_YET)} for p in ALL if p not in frags],
     }
     json.dump(man, open(os.path.join(ROOT, "MANIFEST.json"), "w"), indent=1)
+    print("MANIFEST.json:", len(checks), "checks,", len(man["not_applicable"]), "not claimed")
 
 main()
